@@ -594,6 +594,38 @@ def tiny_tail_family():
     yield b'%PDF-1.4\n' + b'startxref' * 100 + b'%%EOF'
 
 
+def encrypt_family():
+    """Reader::read ends with authenticate_password("") / decrypt: files whose encryption dictionary (direct in the trailer or
+    indirect) carries every V / R combination -- consistent or not -- with /Length extremes (0, 4, 7, 8, 12, 40, 128, 136, 256,
+    2048, negative, huge), short / long / missing O, U, OE, UE, Perms and ID: Rc4::new asserts a key of 1..=256 bytes, the key
+    derivation slices O / U at fixed positions"""
+    lengths = [None, 0, 4, 7, 8, 12, 40, 128, 136, 256, 2048, -8, I64MAX]
+    vr = [(1, 2), (2, 3), (4, 4), (5, 5), (5, 6), (4, 3), (2, 4), (1, 3), (5, 3), (0, 0), (3, 3), (6, 6), (-1, -1), (I64MAX, I64MAX)]
+    k = 0
+    for v, r in vr:
+        for ln in lengths:
+            k += 1
+            if k % 3 and (v, r) not in ((5, 3), (2, 3)) and ln not in (0, 4, 7):
+                continue
+            for olen, ulen in ((32, 32), (48, 48), (0, 0), (31, 33), (127, 127)) if k % 5 == 0 else ((48, 48) if v >= 5 else (32, 32),):
+                d = b'<</Filter/Standard/V %d/R %d/P -4' % (v, r)
+                if ln is not None:
+                    d += b'/Length %d' % ln
+                d += b'/O<' + b'41' * olen + b'>/U<' + b'42' * ulen + b'>'
+                if v >= 4:
+                    d += b'/CF<</StdCF<</CFM/%s/AuthEvent/DocOpen%s>>>>/StmF/StdCF/StrF/StdCF' % (
+                        [b'AESV2', b'AESV3', b'V2', b'None', b'X'][k % 5], (b'/Length %d' % ln) if ln is not None and k % 2 else b'')
+                if v >= 5 and k % 4:
+                    d += b'/OE<' + b'43' * 32 + b'>/UE<' + b'44' * 32 + b'>/Perms<' + b'45' * (16 if k % 8 else 5) + b'>'
+                d += b'>>'
+                ident = b'' if k % 7 == 0 else b'/ID[<%s><%s>]' % (b'00' * (16 if k % 6 else 0), b'11' * 16)
+                objs = simple_objs() + [(7, b'(secret)')]
+                if k % 2:
+                    yield pdf_classic(objs, extra_trailer=b'/Encrypt ' + d + ident)
+                else:
+                    yield pdf_classic(objs + [(8, d)], extra_trailer=b'/Encrypt 8 0 R' + ident)
+
+
 def pdf_with_tounicode(cmap, text, clen):
     """one page whose font has the given ToUnicode CMap (Identity-H for two-byte codes) and whose content shows [text]"""
     hexs = b'<' + text.hex().encode() + b'>'
@@ -760,6 +792,8 @@ def gen_cases(rng, tier):
     add(case('load', XB(objstm_shared_offsets_file())), 'load-objstm-shared')                     # 1.5 GB: the known finding
     for b in tiny_tail_family():
         add(case('load', XB(b)), 'load-tinytail')
+    for b in encrypt_family():
+        add(case('load', XB(b)), 'load-encrypt')
     # adversarial whole files
     n = 3000 if q else 20000
     chain = [(i, b'<</Length %d 0 R>>stream\nx\nendstream' % (i + 1)) for i in range(1, n + 1)] + [(n + 1, b'1')]
